@@ -21,7 +21,7 @@ func init() {
 			{"C18/name-set-exact", func(c *Ctx) { ruleNameSetExact(c, "C18/name-set-exact") }},
 		},
 		Explanation: "Decides non-interference as a read effect: no function reachable from Validate reads a Schema field classified non-asserting (title, description, $comment, default, examples, deprecated, readOnly, writeOnly, format, content*), container ($defs, definitions) or meta (Extra, PropertyOrder), neither directly nor through reflection; the resolution pipeline reads of those fields are limited to a frozen, reasoned set (default validation, traversal); the keyword decoder never hands the caller's document bytes directly to a case-insensitive struct decode but re-encodes a map filtered by exact membership in the JSON-name set; unknown keywords cannot be rejected (Extra is map[string]any filled from a generic decode; no DisallowUnknownFields). It does NOT observe verdict equality of decorated and undecorated schemas, and cannot tell whether the exact-key filter is itself right.",
-		NotDecided: []string{"verdict equality of a decorated and an undecorated schema as an observed fact", "correctness of the exact-key filter beyond its presence and its dependence on the JSON-name set"},
+		NotDecided:  []string{"verdict equality of a decorated and an undecorated schema as an observed fact", "correctness of the exact-key filter beyond its presence and its dependence on the JSON-name set"},
 	})
 }
 
